@@ -132,9 +132,12 @@ def _job(name, factory, depth, bounds, budget, required=True):
 
 
 def jobs(tier):
+    loopjob = _job("S2-loops-nested-terminators", lambda ch: s2.LoopGen(ch), 2, {"space": "S2-loops", "programs": "outer loop x inner loop x place x terminator x guarded"}, 900)
+    passjob = _job("S2-ctl-c2-pass-bodies", lambda ch: s2.CtlGen(ch, 2, 2, 1, pass_bodies=("all" if tier == "quick" else True)), 3,
+                   {"space": "S2-ctl", "compounds<=": 2, "terminators<=": 1, "bodies": "pass only (quick) / marker or pass (thorough)"}, 900)
     forjob = _job("S2-for-target", lambda ch: s2.ForGen(ch), 2, {"space": "S2-for", "programs": "pre-assignment x iterable x body x else x use of the target after the loop"}, 600)
     if tier == "quick":
-        return [forjob,
+        return [forjob, loopjob, passjob,
             _job("S2-ctl-c2-d2-t1", lambda ch: s2.CtlGen(ch, 2, 2, 1), 3,
                  {"space": "S2-ctl", "compounds<=": 2, "depth<=": 2, "terminators<=": 1, "tests": "external calls"}, 900),
             _job("S2-ctl-c1-argtests", lambda ch: s2.CtlGen(ch, 1, 2, 2, arg_tests=True), 2,
@@ -144,7 +147,7 @@ def jobs(tier):
             _job("S2-expr-d2-quick-inner", lambda ch: s2.ExprGen(ch, 2), 3,
                  {"space": "S2-expr", "expression depth<=": 2, "inner ops": s2.ExprGen.INNER_QUICK, "positions": s2.ExprGen.POSITIONS}, 900),
         ]
-    return [forjob,
+    return [forjob, loopjob, passjob,
         _job("S2-ctl-c2-d3-t2", lambda ch: s2.CtlGen(ch, 2, 3, 2), 3,
              {"space": "S2-ctl", "compounds<=": 2, "depth<=": 3, "terminators<=": 2, "tests": "external calls"}, 1800),
         _job("S2-ctl-c2-argtests", lambda ch: s2.CtlGen(ch, 2, 2, 1, arg_tests=True), 3,
